@@ -114,8 +114,32 @@ pub fn check_scalars<V: JsonValueTrait>(v: &V, m: &J, what: &str) -> Result<(), 
 /// Full structural comparison of a DOM `Value` with the model, through the public read API
 /// (not through serialization).
 pub fn check_value(v: &sonic_rs::Value, m: &J, what: &str) -> Result<(), Violation> {
-    use sonic_rs::JsonContainerTrait;
+    use sonic_rs::{JsonContainerTrait, ValueRef};
     check_scalars(v, m, what)?;
+    // the ValueRef view must tell the same story
+    match (v.as_ref(), m) {
+        (ValueRef::Null, J::Null) => {}
+        (ValueRef::Bool(b), J::Bool(mb)) if b == *mb => {}
+        (ValueRef::Number(n), J::Num(lit)) => {
+            if n.as_u64() != expected_u64(lit) || n.as_i64() != expected_i64(lit) {
+                return Err(mismatch(what, "as_ref()", format!("Number({:?})", n), lit.clone()));
+            }
+        }
+        (ValueRef::String(s), J::Str(ms)) if s.as_bytes() == ms.as_bytes() => {}
+        (ValueRef::Array(a), J::Arr(ma)) if a.len() == ma.len() => {}
+        (ValueRef::Object(o), J::Obj(mo)) if o.len() == mo.len() => {}
+        (r, _) => {
+            let kind = match r {
+                ValueRef::Null => "Null",
+                ValueRef::Bool(_) => "Bool",
+                ValueRef::Number(_) => "Number",
+                ValueRef::String(_) => "String",
+                ValueRef::Array(_) => "Array",
+                ValueRef::Object(_) => "Object",
+            };
+            return Err(mismatch(what, "as_ref()", format!("ValueRef::{} (or its content / length)", kind), m.canon()));
+        }
+    }
     match m {
         J::Arr(a) => {
             let arr = v.as_array().ok_or_else(|| mismatch(what, "as_array", "None".into(), "Some".into()))?;
@@ -130,8 +154,15 @@ pub fn check_value(v: &sonic_rs::Value, m: &J, what: &str) -> Result<(), Violati
                     _ => return Err(mismatch(what, "get(index)", format!("element {} not the iterated one", i), "same element".into())),
                 }
             }
-            if v.get(a.len()).is_some() {
-                return Err(mismatch(what, "get(len)", "Some".into(), "None".into()));
+            if v.get(a.len()).is_some() || v.get("0").is_some() || arr.is_empty() != a.is_empty() {
+                return Err(mismatch(what, "get(len) / get(key) / is_empty on an array", "Some / wrong".into(), "None / right".into()));
+            }
+            for i in 0..a.len() {
+                let x = &arr[i];
+                let same = [v.get(&i), v.get(sonic_rs::PointerNode::Index(i)), v.pointer(&[i]), Some(&v[i]), arr.as_slice().get(i)];
+                if same.iter().any(|y| !matches!(y, Some(y) if std::ptr::eq(*y, x))) {
+                    return Err(mismatch(what, "get(index)", format!("&usize / PointerNode / pointer / Index / slice disagree on {}", i), "same element".into()));
+                }
             }
         }
         J::Obj(mm) => {
@@ -152,9 +183,23 @@ pub fn check_value(v: &sonic_rs::Value, m: &J, what: &str) -> Result<(), Violati
             }
             for (k, mx) in mm {
                 match v.get(k.as_str()) {
-                    Some(x) => check_scalars(x, mx, &format!("{}/{:?}", what, k))?,
+                    Some(x) => {
+                        check_scalars(x, mx, &format!("{}/{:?}", what, k))?;
+                        // every key type and access path leads to the same member
+                        let fs = sonic_rs::FastStr::new(k);
+                        let same = [v.get(k), v.get(&fs), v.get(sonic_rs::PointerNode::Key(fs.clone())), v.pointer(&[k.as_str()]), Some(&v[k.as_str()]), obj.get(k), obj.get(&k.as_str())];
+                        if same.iter().any(|y| !matches!(y, Some(y) if std::ptr::eq(*y, x))) {
+                            return Err(mismatch(what, "get(key)", format!("String / FastStr / PointerNode / pointer / Index / Object::get disagree on {:?}", k), "same member".into()));
+                        }
+                        if !obj.contains_key(k) {
+                            return Err(mismatch(what, "contains_key", format!("false for {:?}", k), "true".into()));
+                        }
+                    }
                     None => return Err(mismatch(what, "get(key)", format!("None for {:?}", k), "Some".into())),
                 }
+            }
+            if v.get("\u{1}\u{1}absent").is_some() || v.get(0usize).is_some() || obj.is_empty() != mm.is_empty() {
+                return Err(mismatch(what, "get(absent) / get(index) / is_empty on an object", "Some / wrong".into(), "None / right".into()));
             }
         }
         _ => {}
